@@ -37,7 +37,7 @@ TEXT = {
     "C05": dict(
         technique=_PT_TECH + "; arbitrary parent-link graphs",
         text="Quiescent tables with arbitrary parent links (forests, self-loops, cycles, unlisted parents, equal/inverted start times) are compared exactly with a breadth-first reference; moving tables (events inside the scan) are checked for soundness; termination is enforced by a seam-call budget; recycled callers must raise NoSuchProcess. Sampled.",
-        note=_PT_NOTE + " parents() is not judged on tables whose reference parent chain is endless (self-parent / equal-age cycle): the statement promises termination for children() only.", ref="DESIGN.md section 9, C05"),
+        note=_PT_NOTE + " parents() is not judged on tables whose reference parent chain is endless (self-parent / equal-age cycle): the statement promises termination for children() only. A second leg (threads engine) runs read-only tree queries from 2-3 real threads on a table that does not change: every answer must be the single-threaded one.", ref="DESIGN.md section 9, C05"),
     "C07": dict(
         technique="deterministic simulation: seeded histories of per-CPU tick tables over a virtual clock (blocking calls sleep in virtual time while tick events fire); exact-rational reference oracle",
         text="Seeded histories of /proc/stat tick tables (sub-second totals, zero deltas, fields going backwards, 7-10 kernel fields, 1-8 CPUs with holes) driven through cpu_times/cpu_percent/cpu_times_percent (blocking and non-blocking, percpu or not) and Process.cpu_percent; the simulator records which /proc/stat version every read returned, and the oracle recomputes each result with fractions from exactly the two samples the call must have used. Sampled.",
@@ -51,7 +51,7 @@ TEXT = {
     "C14": dict(
         technique="deterministic simulation: descriptor-table events injected at chosen OS access indexes of open_files() over a simulated /proc/<pid>/fd",
         text="Per seeded descriptor table a fault-free run numbers the accesses of open_files(); seeded runs then close/open descriptors (and sometimes kill or zombify the process) right before chosen accesses. For a live process the call must return; every entry must agree with the descriptor's kernel state (path, fd, offset, flags, mode string); every regular-file descriptor that stayed open must be listed once. num_fds()/io_counters() are compared with the table/the six counters. Sampled.",
-        note="Trusted base: SimKernel fd/fdinfo/io renderers. Mode string for access mode 3 is not judged; deleted targets judged for soundness only.",
+        note="Trusted base: SimKernel fd/fdinfo/io renderers. Mode string for access mode 3 is not judged; deleted targets judged for soundness only. A second leg (threads engine) runs open_files()/num_fds()/io_counters() from 2-3 real threads on an unchanging table against the single-threaded answers.",
         ref="DESIGN.md section 9, C14"),
     "C15": dict(
         technique="deterministic simulation on a discrete-event virtual clock: exit instants placed relative to psutil's poll schedule and the deadline, EINTR injected at chosen waitpid calls",
